@@ -157,6 +157,19 @@ def writesGuarded (tags : List Nat) (u : List (Nat × String)) : Bool :=
 example : writesGuarded [4] [(4, "FContextImpl.Timeout:FContextImpl.timeout")] = false ∧
     writesGuarded [4] [(2, "x")] = true ∧ writesGuarded [4] [(0, "y")] = false ∧ writesGuarded [4] [] = true := by decide
 
+/-! ### Panic safety of critical sections
+
+`manualUnexpected` (regenerated) lists every call made while a mutex is held that no deferred unlock covers and
+that is not hand-classified as unable to panic: the servers recover a panic of user-supplied code (a handler, the
+serialisation of a handler's result) and carry on, so a mutex released by hand after such a call stays locked for
+ever and every later request that needs it is never answered. -/
+
+/-- No unclassified call under a hand-released lock concerns the locks tagged `tags` (tag 0 counts for everybody). -/
+def releasedByDefer (tags : List Nat) (u : List (Nat × String)) : Bool := writesGuarded tags u
+
+example : releasedByDefer [5] [(5, "FBaseProcessorFunction.SendReply:FBaseProcessor.writeMu:f.sendReply")] = false ∧
+    releasedByDefer [5] [] = true := by decide
+
 /-! Sanity of the decision procedure on the two shapes it exists for (kernel-evaluated). -/
 
 /-- f0 holds mutex 0 and calls f1, which calls f2, which takes mutex 0 again: rejected. -/
